@@ -4,6 +4,7 @@ package bad
 
 import (
 	"errors"
+	"fmt"
 	"io"
 )
 
@@ -24,22 +25,16 @@ func BadLoop(b []byte) int {
 	}
 	return n
 }
-func BadFor(n int) int {
-	s := 0
-	for i := 0; i < n; i++ {
-		s += i
-	}
-	return s
-}
 func BadAlias(b []byte) byte        { s := b[1:]; s[0] = 1; return b[1] }
 func BadSliceOfMut(b []byte) []byte { b[0] = 1; return b[1:] }
-func BadMap(m map[int]int) int      { return m[1] }
+func BadMapLen(m map[int]int) int   { return len(m) }
 func BadFloat(n int) uint64         { return uint64(float64(n) / 0.75) }
 func BadShift(a int, k int) int     { return a << k }
 func BadDefer(a int) (r int)        { defer func() { r++ }(); return a }
 func BadErrCompare(err error) bool  { return err == io.EOF }
 func BadClosure(a int) int          { f := func() int { return a }; return f() }
-func BadPointer(p *int) int         { return *p }
+func BadPointer(p *pair) int        { return p.a }
+func BadPtrValue(p *int) *int       { return p }
 func BadUnknownErr() error          { return errors.New("x") }
 func BadGlobalWrite(a int) int      { counter = a; return a }
 func BadAppendMut(b []byte) []byte  { b[0] = 1; return append(b, 2) }
@@ -47,12 +42,13 @@ func BadStruct(p pair) int          { return p.a }
 func BadSlice3(b []byte) []byte     { return b[0:1:2] }
 func BadAssignMut(b []byte) int     { b[0] = 1; b = b[1:]; return len(b) }
 func BadGoto(a int) int {
-	if a > 0 {
-		goto end
+	i := 0
+loop:
+	i++
+	if i < a {
+		goto loop
 	}
-	a = 1
-end:
-	return a
+	return i
 }
 func BadFallthrough(a int) int {
 	switch a {
@@ -64,19 +60,96 @@ func BadFallthrough(a int) int {
 	}
 	return a
 }
-func BadBreak(a int) int {
-	switch a {
-	case 1:
-		if a > 0 {
-			break
+
+// phase 2
+func BadLabel(n int) int {
+	s := 0
+outer:
+	for i := 0; i < n; i++ {
+		for j := 0; j < n; j++ {
+			if j == 2 {
+				continue outer
+			}
+			s++
 		}
-		a = 2
 	}
-	return a
+	return s
 }
-func BadRecursion(a int) int {
+func BadMapAlias(m map[int]int) int {
+	m2 := m
+	m2[1] = 2
+	return m[1]
+}
+func BadMapReturn(m map[int]int) map[int]int { return m }
+func BadMapOk(m map[int]int) int {
+	v, ok := m[1]
+	if ok {
+		return v
+	}
+	return -1
+}
+func okBump(p *int) int { *p++; return *p }
+
+var global int
+
+// a callee whose pointer parameter is (somewhere in the package) not the address of a local
+func BadPtrCallee(p *int) int { *p += 2; return *p }
+func BadPtrCaller() int       { return BadPtrCallee(&global) }
+func BadAddrRead(a int) int {
+	x := a
+	return okBump(&x) + x
+}
+func BadPtrOrder(p *int) int { return okBump(p) + *p }
+func BadPtrTwice(a int) int {
+	x := a
+	return both(&x, &x)
+}
+func both(p, q *int) int { *p++; *q++; return *p }
+func BadStructWhole(a int) int {
+	var p pair
+	p.a = a
+	q := p
+	return q.a
+}
+func BadOwnedEscape(n int) []byte {
+	b := make([]byte, n)
+	b[0] = 1
+	return b
+}
+func BadMakeAlias(n int) byte {
+	b := make([]byte, n)
+	c := b[1:]
+	c[0] = 1
+	return b[1]
+}
+
+type getter interface{ Get() ([]byte, error) }
+
+func BadIfaceErrCmp(g getter) bool {
+	_, err := g.Get()
+	return err == io.EOF
+}
+func BadIfaceValue(g getter) getter { return g }
+func BadErrMethod(err error) int    { return len(err.Error()) }
+func BadErrArg(b []byte) error      { return fmt.Errorf("x %d", b[0]) }
+func BadTableWrite(i int) int       { wtbl[0] = 1; return int(wtbl[i]) }
+
+var wtbl = [2]int8{1, 2}
+
+func BadMutual(a int) int {
 	if a <= 0 {
 		return 0
 	}
-	return BadRecursion(a-1) + 1
+	return badMutual2(a - 1)
 }
+func badMutual2(a int) int { return BadMutual(a) + 1 }
+
+type rec2 struct{ a int }
+
+func (p *rec2) okSet(a int) { p.a = a }
+func BadRecvCall(a int) int {
+	var r rec2
+	r.okSet(a)
+	return r.a
+}
+func BadRecvValue(p *rec2) *rec2 { return p }
